@@ -433,12 +433,28 @@ def r16_7(run):
     ix = run.index
     f = ix.func("pandapipes.create._set_multiple_entries")
     run.analysed(f)
-    inner = [n for n in f.raw_node.body if isinstance(n, ast.FunctionDef)]      # the tree as written (flattening substitutes it)
-    if len(inner) != 1:
-        raise AnalysisError("_set_multiple_entries no longer has one local entry filter")
+    # the entry filter: the nested def or private helper of _set_multiple_entries that maps a Series entry to its `.values`
+    # on some path (found by what it does, in the tree as written; flattening substitutes it into the caller)
     from ..index import FunctionInfo
-    g = FunctionInfo(f.module, inner[0].name, inner[0], parent=f)
-    r = ANF(ix, g, param_alias={g.params()[0]: "val"}).run()
+    cands = [FunctionInfo(f.module, n.name, n, parent=f) for n in f.raw_node.body if isinstance(n, ast.FunctionDef)]
+    for n in ast.walk(f.raw_node):
+        if isinstance(n, ast.Call) and isinstance(n.func, ast.Name) and n.func.id.startswith("_"):
+            rr = ix.resolve_in(f, n.func.id)
+            if rr and rr[0] == "func" and rr[1].qualname != f.qualname and rr[1] not in cands:
+                cands.append(rr[1])
+    found = []
+    for g_ in cands:
+        if not g_.params():
+            continue
+        try:
+            r_ = ANF(ix, g_, param_alias={g_.params()[0]: "val"}).run()
+        except AnalysisError:
+            continue
+        if any(e.value == ("attr", ("n", "val"), "values") for e in r_.returns()):
+            found.append((g_, r_))
+    if len(found) != 1:
+        raise AnalysisError("unrecognised shape: _set_multiple_entries has %d entry filters (expected one)" % len(found))
+    g, r = found[0]
     pos = [e for e in r.returns() if e.value == ("attr", ("n", "val"), "values")]
     if len(pos) != 1 or not pos[0].cond:
         raise AnalysisError("the positional arm of the Series filter was not found")
